@@ -175,7 +175,7 @@ RdfSimple == {"attribution", "communication", "delegation", "influence", "specia
 RdfVals == {"none", "str", "empty", "int", "big", "true", "false", "dt", "uri", "qn", "lang", "two", "nasty"}
 RdfExtras == {<<"other", v>> : v \in RdfVals}
              \cup {<<"role", "str">>, <<"label", "str">>, <<"label", "lang">>, <<"location", "str">>,
-                   <<"location", "qn">>, <<"value", "int">>, <<"type", "qn">>, <<"type", "str">>}
+                   <<"location", "qn">>, <<"value", "int">>, <<"value", "two">>, <<"type", "qn">>, <<"type", "str">>}
 RdfMasks(k) == {S \in Masks(k) : k \in Elements \/ {1, 2} \subseteq S}
 RdfOK(k, i, S, e) ==
   /\ k # "mention"
@@ -208,6 +208,9 @@ RdfSecond ==
      formals |-> <<>>, extras |-> << <<NameQN("ex", A, <<"attr">>), [t |-> "int", v |-> "7"]>> >>],
     [op |-> "NewRec", h |-> "d1", k |-> "entity", via |-> "new_record", id |-> <<NamePL("ex", <<"r2">>)>>,
      formals |-> <<>>, extras |-> << <<NameQN("ex", A, <<"attr">>), [t |-> "str", v |-> "s1"]>> >>],
+    \* a record DECLARED under the name ex:y, which attribute values of the first record may mention
+    [op |-> "NewRec", h |-> "d1", k |-> "entity", via |-> "new_record", id |-> <<NamePL("ex", Y)>>,
+     formals |-> <<>>, extras |-> <<>>],
     [op |-> "Bundle", h |-> "d1", id |-> NamePL("ex", <<"b1">>), out |-> "b1"] }
   \cup RdfRelMenu("d1")
   \cup (IF "b1" \in DOMAIN ms.con
